@@ -1006,6 +1006,16 @@ def oracle_companion(ctx, rng):
             it = iter(payloads)
             if not all(any(p == q for q in it) for p in nonempty) or nonempty == payloads and False:
                 ctx.fail("companion:corruption-accepted", {"pos": pos}, [p[:8].hex() for p in nonempty], "subsequence of sent payloads", "corrupted Companion stream delivered altered plaintext")
+            elif isinstance(pos, int):
+                # a flip inside the ciphertext/tag of ONE frame (its header intact) costs that frame
+                # only: every frame sent before and after it is still recovered (the receive counter
+                # advances with the rejected frame, as the model's `feed` does)
+                hit = [i for i, (s0, ln) in enumerate(starts) if s0 + 4 <= pos < s0 + 4 + ln]
+                if hit and not any(t_ == "exc" for (t_, _p) in got):
+                    want = [p for i, (t_, p) in enumerate(plan) if i != hit[0] and t_ == FrameType.E_OPACK.value]
+                    if nonempty != want:
+                        ctx.fail("companion:valid-frame-after-corruption-lost", {"pos": pos, "frame": hit[0]}, [len(p) for p in nonempty],
+                                 [len(p) for p in want], "valid Companion frames sent after a corrupted one were not recovered")
 
 
 def ref_read_varint(buf):
